@@ -65,6 +65,9 @@ def _unfolded_capture(expr, M, T, folded=False):
         return _unfolded_capture(expr.func.value, M, T, True)
     if _is_capture(expr, M, T):
         return None if folded else ast.unparse(expr)
+    # the value of `a if t else b` is a or b: the test only decides which (`x.lower() if x else None` is folded)
+    if isinstance(expr, ast.IfExp):
+        return _unfolded_capture(expr.body, M, T, folded) or _unfolded_capture(expr.orelse, M, T, folded)
     # string methods that keep the letters (strip, replace, slicing, ...) pass the fold state through
     for ch in ast.iter_child_nodes(expr):
         if isinstance(ch, ast.expr):
@@ -151,7 +154,11 @@ def name_obligations(prop, modules=("ford.sourceform", "ford.fortran_project"), 
     name folds the case of *both* sides (`a.name.lower() == b.lower()`); a membership test in one of the lower-keyed name tables folds the name.  Generated for every
     comparison in the current source in which `<expr>.name` occurs and no side is a literal."""
     out = []
-    has_name = lambda e: any(isinstance(n, ast.Attribute) and n.attr == "name" for n in ast.walk(e))
+    # `.name` of a pathlib path (`p.parent.name`, `Path(x).name`, `p.resolve().name`) is a file name, not a Fortran name - whatever function it stands in
+    PATHISH = ("parent", "parents", "stem", "suffix")
+    is_path_name = lambda n: any((isinstance(x, ast.Attribute) and x.attr in PATHISH) or (isinstance(x, ast.Call) and ast.unparse(x.func).split(".")[-1] in ("Path", "resolve", "absolute", "with_suffix", "relative_to"))
+                                 for x in ast.walk(n.value))
+    has_name = lambda e: any(isinstance(n, ast.Attribute) and n.attr == "name" and not is_path_name(n) for n in ast.walk(e))
     for module in modules:
         _, tree = loader.module_source(module)
         for fn in [x for x in ast.walk(tree) if isinstance(x, (ast.FunctionDef, ast.AsyncFunctionDef))]:
